@@ -3,9 +3,18 @@
                              store  <path> <type> <value>          -> val N | range | other     (Mech: mech_store)
                              update <path> <type> <old> <delta>    -> val N | range | other     (Mech: mech_elem1_update)
                              spec   <type> <value>                 -> val N | range | other     (Spec: Lang.Sem.coerce)
+                             effects <path> <type> <cell> <op> ..  -> one `ok|range READ RAW` per op, `;`-separated   (Mech: mech_effects -
+                                                                      the order of conversion, check and write of the path; READ = what
+                                                                      a read of the cell yields afterwards, RAW = what the cell holds)
+                             spec-effects <type> <cell> <op> ..    -> the same for Spec (a rejected store changes nothing)
+                                                                      op := =V (store V) | +D (store cell + D) | ~D (store read(cell) + D)
+   c04_model try [fuel]    stdin: one try-program per line (coq/C04/Try.v) as an S-expression
+                             (T (gdecl ..) (func ..) (item ..))   item := stmt | (try CHK (incdec pre inc lv)) | (try CHK (call F e ..))
+                             gdecl / func / stmt / expr as in ocaml/lang_driver.ml; answer in the protocol of bin/lang_model
+                             (===BEGIN / Cb text / ===EXPECT outcome / expected stdout / ===END)
                            path := decl|assign|compound|arg|global-scalar|static|incdec-var|incdec-elem1|return|return-from-elemN|elem1|
                                    elem1-compound|elemN|lit1|litN|global-arr|assign-from-elemN|assign-call|decl-call|decl-typedef|
-                                   decl-typedef-ternary|const-global|static-assign|elem1-global|arrlit-assign1|arrlit-assignN|arr-copy|
+                                   decl-typedef-ternary|const-global|static-assign|elem1-global|elemN-global|arrlit-assign1|arrlit-assignN|arr-copy|
                                    member|member-generic (direct member stores, checked since fix a3f0b3d)|
                                    member-literal (struct literal: clamp only)|member-literal-arr (array member inside a struct literal)|
                                    member-arrlit-assign (s.a = [..])|
@@ -54,6 +63,9 @@ let rec path_of = function
        | q -> failwith ("hinted path " ^ q))
   | "assign-call" -> PAssignCall | "decl-call" -> PDeclCall | "decl-typedef" -> PDeclTypedef
   | "decl-typedef-ternary" -> PDeclTypedefTernary | "const-global" -> PConstGlobal | "static-assign" -> PStaticAssign
+  (* an element of a GLOBAL multi-dimensional array: ArrayManager::setMultidimensionalArrayElement on a Variable that has lost
+     is_unsigned - no clamp, the signed range, no narrowing read: the same conversion as a store to a static *)
+  | "elemN-global" -> PStaticAssign
   | "elem1-global" -> PElem1Global | "arrlit-assign1" -> PArrLitAssign1 | "arrlit-assignN" -> PArrLitAssignN | "arr-copy" -> PArrCopy
   | "member" | "member-generic" -> PMember | "member-literal" -> PMemberLit
   | "member-nested" | "member-pointer" | "member-reference" | "member-struct-array" | "deref" | "reference" -> PIndirect
@@ -67,12 +79,121 @@ let rec path_of = function
   | "global-arr" -> PGlobalArr | "assign-from-elemN" -> PAssignFromElemN
   | s -> failwith ("path " ^ s)
 
+(* ------------------------------------------------------------------ S-expression reader (same grammar as ocaml/lang_driver.ml) *)
+type sx = A of string | L of sx list
+
+let parse_sx (s : string) : sx =
+  let n = String.length s in
+  let pos = ref 0 in
+  let rec skip () = while !pos < n && (s.[!pos] = ' ' || s.[!pos] = '\t') do incr pos done
+  and item () =
+    skip ();
+    if !pos >= n then failwith "eof"
+    else if s.[!pos] = '(' then begin
+      incr pos;
+      let items = ref [] in
+      skip ();
+      while !pos < n && s.[!pos] <> ')' do items := item () :: !items; skip () done;
+      if !pos >= n then failwith "unclosed";
+      incr pos; L (List.rev !items)
+    end else begin
+      let st = !pos in
+      while !pos < n && s.[!pos] <> ' ' && s.[!pos] <> '(' && s.[!pos] <> ')' && s.[!pos] <> '\t' do incr pos done;
+      A (String.sub s st (!pos - st))
+    end in
+  item ()
+
+let atom = function A s -> s | L _ -> failwith "atom expected"
+let nat_a x = nat_of_int (int_of_string (atom x))
+let bool_a x = (atom x) = "1"
+let binop_of = function
+  | "+" -> Add | "-" -> Sub | "*" -> Mul | "/" -> Div | "%" -> Mod | "&" -> BAnd | "|" -> BOr | "^" -> BXor
+  | "<<" -> Shl | ">>" -> Shr | "<" -> Lt0 | "<=" -> Le | ">" -> Gt0 | ">=" -> Ge | "==" -> Eq0 | "!=" -> Ne
+  | s -> failwith ("binop " ^ s)
+let unop_of = function "-" -> Neg | "!" -> LNot | "~" -> BNot | s -> failwith ("unop " ^ s)
+let rec expr_of = function
+  | A s -> ENum (z_of_string s)
+  | L [A "v"; n] -> EVar (nat_a n)
+  | L [A "un"; o; e] -> EUn (unop_of (atom o), expr_of e)
+  | L [A "bin"; o; a; b] -> EBin (binop_of (atom o), expr_of a, expr_of b)
+  | L [A "and"; a; b] -> EAnd (expr_of a, expr_of b)
+  | L [A "or"; a; b] -> EOr (expr_of a, expr_of b)
+  | L [A "cond"; c; a; b] -> ECond (expr_of c, expr_of a, expr_of b)
+  | L (A "call" :: f :: args) -> ECall (nat_a f, List.map expr_of args)
+  | L (A "idx" :: a :: idx) -> EIdx (nat_a a, List.map expr_of idx)
+  | _ -> failwith "expr"
+let lval_of = function
+  | L [A "v"; n] -> LVar (nat_a n)
+  | L (A "idx" :: a :: idx) -> LIdx (nat_a a, List.map expr_of idx)
+  | _ -> failwith "lval"
+let list_of = function L l -> l | A _ -> failwith "list expected"
+let fld_of = function
+  | A t -> { fty = ty_of t; fdims = [] }
+  | L (A t :: dims) -> { fty = ty_of t; fdims = List.map nat_a dims }
+  | _ -> failwith "fld"
+let rec stmt_of = function
+  | L [A "decl"; c; s; t; x] -> SDecl (bool_a c, bool_a s, ty_of (atom t), nat_a x, None)
+  | L [A "decl"; c; s; t; x; e] -> SDecl (bool_a c, bool_a s, ty_of (atom t), nat_a x, Some (expr_of e))
+  | L [A "arr"; c; t; x; dims; init] ->
+      SArr (bool_a c, ty_of (atom t), nat_a x, List.map nat_a (list_of dims), List.map expr_of (list_of init))
+  | L [A "asg"; lv; e] -> SAssign (lval_of lv, None, expr_of e)
+  | L [A "casg"; o; lv; e] -> SAssign (lval_of lv, Some (binop_of (atom o)), expr_of e)
+  | L [A "incdec"; p; i; lv] -> SIncDec (bool_a p, bool_a i, lval_of lv)
+  | L [A "expr"; e] -> SExpr (expr_of e)
+  | L [A "if"; c; s1; s2] -> SIf (expr_of c, stmts_of s1, stmts_of s2)
+  | L [A "while"; c; b] -> SWhile (expr_of c, stmts_of b)
+  | L [A "for"; i; c; u; b] -> SFor (stmts_of i, expr_of c, stmts_of u, stmts_of b)
+  | L [A "break"] -> SBreak
+  | L [A "continue"] -> SContinue
+  | L [A "ret"] -> SReturn None
+  | L [A "ret"; e] -> SReturn (Some (expr_of e))
+  | L (A "block" :: ss) -> SBlock (List.map stmt_of ss)
+  | L (A "print" :: n :: args) -> SPrint (bool_a n, List.map expr_of args)
+  | L (A "struct" :: sn :: x :: flds) -> SStruct (nat_a sn, nat_a x, List.map fld_of flds)
+  | L (A "copy" :: x :: y :: flds) -> SCopy (nat_a x, nat_a y, List.map fld_of flds)
+  | _ -> failwith "stmt"
+and stmts_of x = List.map stmt_of (list_of x)
+let param_of = function
+  | L [n; t] -> { pty = ty_of (atom t); pname = nat_a n; pdef = None }
+  | L [n; t; d] -> { pty = ty_of (atom t); pname = nat_a n; pdef = Some (expr_of d) }
+  | _ -> failwith "param"
+let func_of = function
+  | L [A "F"; n; r; ps; body] ->
+      { fname = nat_a n; fret = (match atom r with "void" -> None | s -> Some (ty_of s));
+        fparams = List.map param_of (list_of ps); fbody = stmts_of body }
+  | _ -> failwith "func"
+let gdecl_of = function
+  | L [A "G"; c; t; n; dims; init] ->
+      { gcst = bool_a c; gty = ty_of (atom t); gname = nat_a n; gdims = List.map nat_a (list_of dims);
+        ginit = List.map (fun x -> z_of_string (atom x)) (list_of init) }
+  | _ -> failwith "gdecl"
+let item_of = function
+  | L [A "try"; c; L [A "incdec"; p; i; lv]] -> TTry (bool_a c, AIncDec (bool_a p, bool_a i, lval_of lv))
+  | L [A "try"; c; L (A "call" :: f :: args)] -> TTry (bool_a c, ACall (nat_a f, List.map expr_of args))
+  | L (A "try" :: _) -> failwith "try item"
+  | st -> TStmt (stmt_of st)
+let tprog_of = function
+  | L [A "T"; gs; fs; m] ->
+      { tglobals = List.map gdecl_of (list_of gs); tfuncs = List.map func_of (list_of fs); tmain = List.map item_of (list_of m) }
+  | _ -> failwith "tprog"
+let err_s = function
+  | EDiv0 -> "div0" | ERange -> "range" | EBounds -> "bounds" | EConst -> "const" | EArity -> "arity"
+  | EUnbound -> "unbound" | EUndef -> "undef" | ENoFuel -> "nofuel"
+
+let sop_of (s : string) : sop =
+  let rest = String.sub s 1 (String.length s - 1) in
+  match s.[0] with
+  | '=' -> OSet (z_of_string rest) | '+' -> OAddRaw (z_of_string rest) | '~' -> OAddRead (z_of_string rest)
+  | _ -> failwith ("op " ^ s)
+let show_effects rd l =
+  String.concat " ; " (List.map (fun (ok, raw) -> (if ok then "ok " else "range ") ^ implode (dec_Z (rd raw)) ^ " " ^ implode (dec_Z raw)) l)
+
 let show_ctl = function
   | Val z -> "val " ^ implode (dec_Z z)
   | Fail ERange -> "range"
   | _ -> "other"
 
-let () =
+let mech_loop () =
   try
     while true do
       let line = input_line stdin in
@@ -80,7 +201,34 @@ let () =
       | ["store"; p; t; v] -> print_endline (show_ctl (mech_store (path_of p) (ty_of t) (z_of_string v)))
       | ["update"; p; t; o; d] -> print_endline (show_ctl (mech_elem1_update (path_of p) (ty_of t) (z_of_string o) (z_of_string d)))
       | ["spec"; t; v] -> print_endline (show_ctl (coerce (ty_of t) (z_of_string v)))
+      | "effects" :: p :: t :: c :: ops ->
+          let pp = path_of p and tt = ty_of t in
+          print_endline (show_effects (read_of pp tt) (mech_effects pp tt (z_of_string c) (List.map sop_of ops)))
+      | "spec-effects" :: t :: c :: ops ->
+          print_endline (show_effects (fun z -> z) (spec_effects (ty_of t) (z_of_string c) (List.map sop_of ops)))
       | [""] -> ()
       | _ -> print_endline "bad-query"
     done
   with End_of_file -> ()
+
+let try_loop fuel =
+  try
+    while true do
+      let line = input_line stdin in
+      if String.length line > 0 then begin
+        let p = tprog_of (parse_sx line) in
+        print_endline "===BEGIN";
+        print_string (implode (print_tprogram p));
+        let (out, oc) = run_try fuel p in
+        print_endline ("===EXPECT " ^ (match oc with Finished -> "finished" | Failed e -> err_s e));
+        print_string (implode (render out));
+        print_endline "";
+        print_endline "===END"
+      end
+    done
+  with End_of_file -> ()
+
+let () =
+  match (if Array.length Sys.argv > 1 then Sys.argv.(1) else "mech") with
+  | "try" -> try_loop (nat_of_int (if Array.length Sys.argv > 2 then int_of_string Sys.argv.(2) else 4000))
+  | _ -> mech_loop ()
